@@ -317,7 +317,11 @@ _poll_add_(struct qb_loop *l,
 
 	s = (struct qb_poll_source *)l->fd_source;
 
-	install_pos = _get_empty_array_position_(s);
+	res = _get_empty_array_position_(s);
+	if (res < 0) {
+		return res;
+	}
+	install_pos = res;
 
 	assert(qb_array_index(s->poll_entries, install_pos, (void **)&pe) == 0);
 	pe->state = QB_POLL_ENTRY_ACTIVE;
